@@ -202,3 +202,20 @@ Proof.
     destruct d; cbn in Hx; try lia; eauto.
   - intros (p & Hin). exists (-2). split; [|reflexivity]. apply in_map_iff. exists (DSvcCfg p). auto.
 Qed.
+
+(* ---------- picker construction: one append per entry of the ReadySCs map, nothing keyed by Address ---------- *)
+Lemma link_build_picker_calls : C14_Gen.build_picker_calls =
+  ["len"; "base.NewErrPicker"; "return"; "append"; "time.Now().UnixNano"; "rand.NewSource"; "rand.New";
+   "syncx.NewAtomicDuration"; "return"]%string.
+Proof. reflexivity. Qed.
+
+(* the model's Build makes exactly one connection per entry, in iteration order, ignoring the addresses *)
+Lemma link_build_ready start (ready : ready_set) order s0 :
+  build_ready start ready order = Some s0 -> map scid (conns s0) = order /\ order <> [].
+Proof.
+  assert (G : forall l, map scid (map new_conn l) = l).
+  { induction l as [|x l IH]; cbn [map]; [reflexivity|]. rewrite IH. reflexivity. }
+  unfold build_ready, build. intro H. assert (E : s0 = mkst start (map new_conn order) 0 [] /\ order <> []).
+  { destruct order; [discriminate|]. inversion H. split; [reflexivity|discriminate]. }
+  destruct E as (-> & Hne). cbn [conns]. split; [apply G|exact Hne].
+Qed.
